@@ -838,3 +838,171 @@ LEMMAS['xzpartial_full'] = dict(
     ensures=['XZPartial(g, 2 * m) == XZSum(g, m)'],
     induction='m', fuel=2,
 )
+
+
+# ------------------------------------------------------------------ GF(2) linear algebra: z2inv (C04), z2rank (C08)
+LEMMAS['dot_shift'] = dict(
+    doc='the partial dot product depends only on the window u[off : off+m]',
+    params=[('u', 'int1'), ('o1', 'int'), ('v', 'int1'), ('o2', 'int'), ('M', 'int2'), ('m', 'int'), ('c', 'int')],
+    requires=['forall(k, 0, m, u[o1 + k] == v[o2 + k])'],
+    ensures=['DotOff(u, o1, M, m, c) == DotOff(v, o2, M, m, c)'],
+    induction='m',
+)
+LEMMAS['dot_add'] = dict(
+    doc='the dot product is additive mod 2 in the row',
+    params=[('u', 'int1'), ('v', 'int1'), ('w', 'int1'), ('off', 'int'), ('M', 'int2'), ('m', 'int'), ('c', 'int')],
+    requires=['forall(k, 0, m, 0 <= u[off + k] <= 1 and 0 <= v[off + k] <= 1 and w[off + k] == (u[off + k] + v[off + k]) % 2)'],
+    ensures=['(DotOff(w, off, M, m, c) - DotOff(u, off, M, m, c) - DotOff(v, off, M, m, c)) % 2 == 0'],
+    induction='m',
+)
+LEMMAS['dot_unit'] = dict(
+    doc='the dot product with a unit vector selects a row',
+    params=[('u', 'int1'), ('off', 'int'), ('M', 'int2'), ('m', 'int'), ('c', 'int'), ('row', 'int')],
+    requires=['0 <= row', 'forall(k, 0, m, u[off + k] == (1 if k == row else 0))'],
+    ensures=['DotOff(u, off, M, m, c) == (M[row][c] if row < m else 0)'],
+    induction='m',
+)
+LEMMAS['ordg_is_dot'] = dict(
+    doc='the string part of an ordered product of selected rows is the GF(2) dot product of the selection with the rows',
+    params=[('crow', 'int1'), ('gs', 'int2'), ('n', 'int'), ('c', 'int')],
+    requires=['bits(crow, n)', 'forall(k, 0, n, 0 <= gs[k][c] <= 1)'],
+    ensures=['OrdG(crow, gs, n, c) == DotOff(crow, 0, gs, n, c) % 2'],
+    induction='n',
+)
+
+PREDS['aug'] = (('a', 'n'), ['rows(a) == n', 'cols(a) == 2 * n', 'bits2(a)'])
+# the augmented-matrix relation of Gauss-Jordan inversion: left half == right half . mat  (mod 2), row by row
+PREDS['augrel'] = (('a', 'mat', 'n'), 'forall(row, 0, n, forall(c, 0, n, a[row][c] == DotOff(a[row], n, mat, n, c) % 2))')
+PREDS['lowzero'] = (('a', 'n', 'i'), 'forall(c, 0, i, forall(row, c + 1, n, a[row][c] == 0))')
+PREDS['diagone'] = (('a', 'i'), 'forall(c, 0, i, a[c][c] == 1)')
+PREDS['upzero'] = (('a', 'n', 'i'), 'forall(c, i + 1, n, forall(row, 0, c, a[row][c] == 0))')
+
+_zi_fw = ['n == rows(mat)', 'n >= 1', 'cols(mat) == n', 'bits2(mat)', 'aug(a, n)', 'augrel(a, mat, n)']
+_A3 = "at('loop3.pre', a)"
+_A4 = "at('loop4.head', a)"
+_A6 = "at('loop6.head', a)"
+
+
+def _rowadd_hints(A, j, i):
+    """after  a[j, i:] = (a[j, i:] + a[i, i:]) % 2  (A = the array before): additivity of the dot product for every column"""
+    return [('forall_lemma', [('c', '0', 'n')], 'dot_add', ['%s[%s]' % (A, j), '%s[%s]' % (A, i), 'a[%s]' % j, 'n', 'mat', 'n', 'c'])]
+
+
+CONTRACTS[U + 'z2inv'] = dict(
+    params=[('mat', 'int2')],
+    requires=['rows(mat) == cols(mat)', 'rows(mat) >= 1', 'bits2(mat)'],
+    ensures=['rows(result) == rows(mat)', 'cols(result) == rows(mat)', 'bits2(result)',
+             # result . mat == identity (mod 2): the returned matrix is a (left, hence two-sided) inverse over GF(2)
+             'forall(j, 0, rows(mat), forall(c, 0, rows(mat), DotOff(result[j], 0, mat, rows(mat), c) % 2 == (1 if j == c else 0)))',
+             'forall(j, 0, rows(mat), forall(c, 0, rows(mat), OrdG(result[j], mat, rows(mat), c) == (1 if j == c else 0)))'],
+    may_raise=['ValueError'],             # partial correctness: "raises only for singular input" is checked bounded (C04)
+    modifies=[], returns='int2 fresh',
+    loops={
+        0: dict(var='i', invariant=['n == rows(mat)', 'n >= 1', 'cols(mat) == n', 'bits2(mat)', 'aug(a, n)',
+                                    'forall(row, 0, n, forall(c, 0, n, a[row][c] == mat[row][c]))',
+                                    'forall(row, 0, n, forall(k, 0, n, a[row][n + k] == (1 if (k == row and row < i) else 0)))'],
+                hints_exit=[('forall_lemma', [('row', '0', 'n'), ('c', '0', 'n')], 'dot_unit', ['a[row]', 'n', 'mat', 'n', 'c', 'row'])]),
+        1: dict(var='i', invariant=_zi_fw + ['lowzero(a, n, i)', 'diagone(a, i)']),
+        2: dict(var='k', invariant=['not found', 'forall(kk, i + 1, k, a[kk][i] == 0)']),
+        3: dict(var='j', invariant=['n == rows(mat)', 'aug(a, n)', '0 <= i < k < n',
+                                    'forall(row, 0, n, row == i or row == k or same(a[row], %s[row]))' % _A3,
+                                    'forall(c, 0, 2 * n, a[i][c] == (%s[k][c] if (i <= c and c < j) else %s[i][c]))' % (_A3, _A3),
+                                    'forall(c, 0, 2 * n, a[k][c] == (%s[i][c] if (i <= c and c < j) else %s[k][c]))' % (_A3, _A3)],
+                hints_exit=[('forall_lemma', [('c', '0', 'n')], 'dot_shift', ['a[i]', 'n', '%s[k]' % _A3, 'n', 'mat', 'n', 'c']),
+                            ('forall_lemma', [('c', '0', 'n')], 'dot_shift', ['a[k]', 'n', '%s[i]' % _A3, 'n', 'mat', 'n', 'c'])]),
+        4: dict(var='j', invariant=_zi_fw + ['0 <= i < n', 'lowzero(a, n, i)', 'diagone(a, i + 1)', 'forall(row, i + 1, j, a[row][i] == 0)']),
+        5: dict(var='i', invariant=_zi_fw + ['lowzero(a, n, n)', 'diagone(a, n)', 'upzero(a, n, i)']),
+        6: dict(var='j', invariant=_zi_fw + ['1 <= i < n', 'lowzero(a, n, n)', 'diagone(a, n)', 'upzero(a, n, i)', 'forall(row, 0, j, a[row][i] == 0)']),
+    },
+    hints={
+        'if3.then.end': _rowadd_hints(_A4, 'j', 'i'),
+        'if4.then.end': _rowadd_hints(_A6, 'j', 'i'),
+        'return': [('forall_lemma', [('j', '0', 'n'), ('c', '0', 'n')], 'dot_shift', ['result[j]', '0', 'a[j]', 'n', 'mat', 'n', 'c']),
+                   ('forall_lemma', [('j', '0', 'n'), ('c', '0', 'n')], 'ordg_is_dot', ['result[j]', 'mat', 'n', 'c'])],
+    },
+)
+
+# ---- z2rank: Gaussian elimination keeps the rank (row swaps / row additions) and ends in an echelon form
+LEMMAS['lead_range'] = dict(
+    doc='the leading column of a row lies in 0..n',
+    params=[('row', 'int1'), ('n', 'int')], requires=['n >= 0'],
+    ensures=['0 <= Lead(row, n) <= n'], induction='n',
+)
+LEMMAS['lead_char'] = dict(
+    doc='a row that vanishes before column i and not at column i has leading column i',
+    params=[('row', 'int1'), ('n', 'int'), ('i', 'int')],
+    requires=['0 <= i < n', 'forall(c, 0, i, row[c] == 0)', 'row[i] != 0'],
+    ensures=['Lead(row, n) == i'], induction='n',
+    uses_step=[('lemma?', 'lead_zero', ['row', 'n - 1'])],
+)
+LEMMAS['lead_zero'] = dict(
+    doc='a vanishing row has no leading column',
+    params=[('row', 'int1'), ('n', 'int')],
+    requires=['n >= 0', 'forall(c, 0, n, row[c] == 0)'],
+    ensures=['Lead(row, n) == n'], induction='n',
+)
+_rank_axiom = ('classical linear algebra over GF(2), not proved here (Z2Rank is abstract for the solver); the statement is evaluated '
+               'natively against the independent executable definition of Z2Rank on generated matrices in every run: ')
+LEMMAS['rank_swap'] = dict(
+    axiom=_rank_axiom + 'exchanging two rows does not change the rank',
+    params=[('A', 'int2'), ('B', 'int2'), ('nr', 'int'), ('nc', 'int'), ('i', 'int'), ('k', 'int')],
+    requires=['0 <= i < nr', '0 <= k < nr',
+              'forall(c, 0, nc, B[i][c] == A[k][c] and B[k][c] == A[i][c])',
+              'forall(row, 0, nr, forall(c, 0, nc, row == i or row == k or B[row][c] == A[row][c]))'],
+    ensures=['Z2Rank(B, nr, nc) == Z2Rank(A, nr, nc)'],
+)
+LEMMAS['rank_rowadd'] = dict(
+    axiom=_rank_axiom + 'adding one row to a different row (mod 2) does not change the rank',
+    params=[('A', 'int2'), ('B', 'int2'), ('nr', 'int'), ('nc', 'int'), ('j', 'int'), ('r', 'int')],
+    requires=['0 <= j < nr', '0 <= r < nr', 'j != r',
+              'forall(c, 0, nc, B[j][c] == (A[j][c] + A[r][c]) % 2)',
+              'forall(row, 0, nr, forall(c, 0, nc, row == j or B[row][c] == A[row][c]))'],
+    ensures=['Z2Rank(B, nr, nc) == Z2Rank(A, nr, nc)'],
+)
+LEMMAS['rank_echelon'] = dict(
+    axiom=_rank_axiom + 'a 0/1 matrix whose first r rows have strictly increasing leading columns and whose other rows vanish has rank r',
+    params=[('A', 'int2'), ('nr', 'int'), ('nc', 'int'), ('r', 'int')],
+    requires=['0 <= r <= nr', 'nc >= 0', 'forall(row, 0, nr, forall(c, 0, nc, 0 <= A[row][c] <= 1))',
+              'forall(k, 0, r, Lead(A[k], nc) < nc)',
+              'forall(k, 0, r, forall(k2, k + 1, r, Lead(A[k], nc) < Lead(A[k2], nc)))',
+              'forall(k, r, nr, Lead(A[k], nc) == nc)'],
+    ensures=['Z2Rank(A, nr, nc) == r'],
+)
+
+_M0 = 'old(mat)'
+_zr = ['nr == rows(mat)', 'nc == cols(mat)', 'nr >= 0', 'nc >= 0', 'bits2(mat)', '0 <= r <= nr', 'r <= i',
+       'Z2Rank(mat, nr, nc) == Z2Rank(%s, nr, nc)' % _M0,
+       'forall(row, r, nr, forall(c, 0, i, mat[row][c] == 0))',
+       'forall(k, 0, r, Lead(mat[k], nc) < i)',
+       'forall(k, 0, r, forall(k2, k + 1, r, Lead(mat[k], nc) < Lead(mat[k2], nc)))']
+_R2 = "at('loop2.pre', mat)"
+_R3 = "at('loop3.head', mat)"
+CONTRACTS[U + 'z2rank'] = dict(
+    params=[('mat', 'int2')],
+    requires=['bits2(mat)'],
+    ensures=['result == Z2Rank(old(mat), rows(mat), cols(mat))', '0 <= result <= rows(mat)', 'result <= cols(mat)'],
+    modifies=['mat'], returns='int',          # "mat is destroyed upon output" (docstring)
+    loops={
+        0: dict(var='i', invariant=_zr, locals={'found': 'bool', 'k': 'int', 'j': 'int', 'tmp': 'int'},
+                hints_exit=[('forall_lemma', [('k', 'r', 'nr')], 'lead_zero', ['mat[k]', 'nc']),
+                            ('lemma', 'rank_echelon', ['mat', 'nr', 'nc', 'r'])]),
+        1: dict(var='k', invariant=['not found', 'forall(kk, r + 1, k, mat[kk][i] == 0)']),
+        2: dict(var='j', invariant=['nr == rows(mat)', 'nc == cols(mat)', 'bits2(mat)', '0 <= r < k < nr', '0 <= i < nc',
+                                    'forall(row, 0, nr, row == r or row == k or same(mat[row], %s[row]))' % _R2,
+                                    'forall(c, 0, nc, mat[r][c] == (%s[k][c] if (i <= c and c < j) else %s[r][c]))' % (_R2, _R2),
+                                    'forall(c, 0, nc, mat[k][c] == (%s[r][c] if (i <= c and c < j) else %s[k][c]))' % (_R2, _R2)],
+                hints_exit=[('lemma', 'rank_swap', [_R2, 'mat', 'nr', 'nc', 'r', 'k'])]),
+        3: dict(var='j', invariant=['nr == rows(mat)', 'nc == cols(mat)', 'nr >= 0', 'nc >= 0', 'bits2(mat)', '0 <= r < nr', '0 <= i < nc', 'r <= i',
+                                    'Z2Rank(mat, nr, nc) == Z2Rank(%s, nr, nc)' % _M0,
+                                    'forall(row, r, nr, forall(c, 0, i, mat[row][c] == 0))',
+                                    'forall(k, 0, r, Lead(mat[k], nc) < i)',
+                                    'forall(k, 0, r, forall(k2, k + 1, r, Lead(mat[k], nc) < Lead(mat[k2], nc)))',
+                                    'mat[r][i] == 1', 'forall(row, r + 1, j, mat[row][i] == 0)'],
+                hints_exit=[('lemma', 'lead_char', ['mat[r]', 'nc', 'i'])]),
+    },
+    hints={
+        'return': [('forall_lemma', [('k', 'r', 'nr')], 'lead_zero', ['mat[k]', 'nc'], 'optional'),
+                   ('lemma?', 'rank_echelon', ['mat', 'nr', 'nc', 'r'])],
+        'if4.then.end': [('lemma', 'rank_rowadd', [_R3, 'mat', 'nr', 'nc', 'j', 'r'])],
+    },
+)
